@@ -24,9 +24,22 @@ func ecdhKey(k *btcec.PrivateKey) keychain.SingleKeyECDH {
 	return &keychain.PrivKeyECDH{PrivKey: k}
 }
 
+// impostorKey presents one key pair's public key and computes with another
+// pair's private key.
+type impostorKey struct {
+	pub  *btcec.PublicKey
+	priv *btcec.PrivateKey
+}
+
+func (k *impostorKey) PubKey() *btcec.PublicKey { return k.pub }
+func (k *impostorKey) ECDH(pub *btcec.PublicKey) ([32]byte, error) {
+	return (&keychain.PrivKeyECDH{PrivKey: k.priv}).ECDH(pub)
+}
+
 // hsParams describes one Noise handshake attempt.
 type hsParams struct {
 	cliKey, srvKey       *btcec.PrivateKey
+	cliECDH              keychain.SingleKeyECDH // overrides ecdhKey(cliKey) if set
 	cliRemote, srvRemote *btcec.PublicKey // expected remote keys (KK) or nil (XX)
 	cliEnt, srvEnt       []byte
 	auth                 []byte
@@ -51,7 +64,11 @@ type hsResult struct {
 // transports (each an io.ReadWriter).
 func runMachines(p hsParams, cRW, sRW io.ReadWriter) hsResult {
 	var res hsResult
-	res.cd = mailbox.NewConnData(ecdhKey(p.cliKey), p.cliRemote, p.cliEnt, nil, nil, nil)
+	var ck keychain.SingleKeyECDH = ecdhKey(p.cliKey)
+	if p.cliECDH != nil {
+		ck = p.cliECDH
+	}
+	res.cd = mailbox.NewConnData(ck, p.cliRemote, p.cliEnt, nil, nil, nil)
 	res.sd = mailbox.NewConnData(ecdhKey(p.srvKey), p.srvRemote, p.srvEnt, p.auth, nil, nil)
 	var err error
 	res.cm, err = mailbox.NewBrontideMachine(&mailbox.BrontideMachineConfig{
